@@ -9,11 +9,17 @@ ENV_OF = {'open_input': 'MIDO_DEFAULT_INPUT', 'open_output': 'MIDO_DEFAULT_OUTPU
 
 
 class FakeEnv:
+    """os double: environ (a dict) and getenv; anything else is not modelled."""
+
     def __init__(self, d):
         self.environ = d
 
+    def getenv(self, key, default=None):
+        return self.environ.get(key, default)
+
     def __getattr__(self, k):
-        raise AttributeError(k)
+        from pysym.core import Unmodelled
+        raise Unmodelled('os.%s is not modelled by the harness double' % k)
 
 
 class FakeImporter:
@@ -21,11 +27,15 @@ class FakeImporter:
         self.modules = modules
         self.calls = []
 
-    def import_module(self, name):
+    def import_module(self, name, package=None):
         self.calls.append(name)
         if name not in self.modules:
             raise ModuleNotFoundError(name)
         return self.modules[name]
+
+    def __getattr__(self, k):
+        from pysym.core import Unmodelled
+        raise Unmodelled('importlib.%s is not modelled by the harness double' % k)
 
 
 def make_module(has_ioport, has_get_devices, devices, log):
